@@ -139,7 +139,13 @@ def gen_lines(rng, n: int) -> typing.List[bytes]:
             # third tokens that a lenient integer parser takes for a number, but that are no digit strings
             b"h /p +1", b"h /p -0", b"h /p 1_0", b"h /p \x0c7", b"h /p \x0b12", b"h /p 0x10", b"h /p 1e3", b"h /p 1.0", b"h /p 0b1",
             b"h /p ++1", b"h /p 1+", b"h /p _1", b"h /p 1_", b"h /p 00", b"h /p 007", b"h /p " + b"9" * 4400, b"h /p " + b"1" * 30,
-            b"notes /2024 +1", b"notes /2024 1_0", b"h /p \xef\xbc\x91", b"h /p \xc2\xb2"]
+            b"notes /2024 +1", b"notes /2024 1_0", b"h /p \xef\xbc\x91", b"h /p \xc2\xb2",
+            # characters inside the first line that str.splitlines() takes for line ends (the line is read up to LF only)
+            b"GET /a HTTP/1.0\x0bx y", b"GET /a HTTP/1.0\x0c", b"h /p 0\rjunk", b"/sel\t+\x1c\tx", b"\rGET /a HTTP/1.0", b"/a\t+\x1dmore",
+            b"GET /a\xc2\x85 HTTP/1.0", b"h /p\xe2\x80\xa8 0", b"/a\x0b\t+", b"/a\t\x0c+", b"gemini://h/\x1ex", b"/a\tq\x0b\t$", b"GET /wap\x0c/x HTTP/1.0",
+            b"HEAD /a HTTP/1.0\x1e\t+", b"/a\rb\t!", b"x\x0b /p 1",
+            # a Gopher search string that has the Spartan shape itself
+            b"/find.sh\tmount /mnt 2", b"/a\tword /p 0", b"/find.sh\tq /p 12\t+", b"/a b\tc /d 1"]
     out = list(base)
     shapes = [b"GET %s HTTP/1.0", b"HEAD %s HTTP/1.1", b"gemini://h%s", b"h %s 0", b"h %s 12", b"%s", b"%s\t+",
               b"%s\t!", b"%s\t$", b"%s\tq\t+", b"%s\tquery"]
